@@ -709,6 +709,9 @@ def same_value(a, b):
             exp = (h + float(a.pc)) / (h.sum() + 2 * float(a.pc))
         r = np.asarray(a.res, dtype=float)
         return r.shape == exp.shape and bool(np.allclose(r, exp, rtol=1e-9, atol=1e-12, equal_nan=True))
+    import pandas as pd
+    if isinstance(a, pd.DataFrame) or isinstance(b, pd.DataFrame):
+        return isinstance(a, pd.DataFrame) and isinstance(b, pd.DataFrame) and a.equals(b)
     try:
         return bool(np.all(np.asarray(a) == np.asarray(b)))
     except Exception:
@@ -816,3 +819,58 @@ def zeta(a, q):
 
 def is_integral(x):
     return float(x) == int(x)
+
+
+# ---- C18: tables
+def fold_left(f, xs):
+    import functools
+    return functools.reduce(f, list(xs))
+
+
+def _cellstr(v):
+    import pandas as pd
+    return "" if (v is None or (isinstance(v, float) and v != v) or v is pd.NA) else v
+
+
+def table_cell(t, c, i):
+    return _cellstr(t[c].iloc[int(i)])
+
+
+def column_names(t):
+    return list(t.columns)
+
+
+def same_index(a, b):
+    return a.index.equals(b.index)
+
+
+def tt_junction(x, strict):
+    import tidytcells as tt
+    import warnings
+    with warnings.catch_warnings():
+        warnings.simplefilter("ignore")
+        return _cellstr(tt.junction.standardize(seq=x, strict=bool(strict), suppress_warnings=True))
+
+
+def tt_tr(x, species, enforce, precision):
+    import tidytcells as tt
+    import warnings
+    with warnings.catch_warnings():
+        warnings.simplefilter("ignore")
+        return _cellstr(tt.tr.standardize(gene=x, species=species, enforce_functional=bool(enforce), precision=precision, suppress_warnings=True))
+
+
+def tt_mh(x, species, precision):
+    import tidytcells as tt
+    import warnings
+    with warnings.catch_warnings():
+        warnings.simplefilter("ignore")
+        return _cellstr(tt.mh.standardize(gene=x, species=species, precision=precision, suppress_warnings=True))
+
+
+def tt_aa_keep(x):
+    import tidytcells as tt
+    import warnings
+    with warnings.catch_warnings():
+        warnings.simplefilter("ignore")
+        return _cellstr(tt.aa.standardize(seq=x, on_fail="keep", suppress_warnings=True))
